@@ -102,19 +102,14 @@ theorem unquoteStep_quoteChar (c : Char) (rest : List Char) : unquoteStep (quote
             · rename_i h; subst h; simp [unquoteStep]
             · rename_i hq hb _ _ _ _
               split
-              · rename_i hr
-                have h1 : ¬ c.val = 0xFFFD := by
-                  intro h
-                  rw [h] at hr
-                  exact absurd hr.2 (by decide)
-                simp [unquoteStep, h1, hb]
+              · simp [unquoteStep, hb]
               · have e : ['\\', 'u', '{'] ++ hexDigitsOf c.val.toNat ++ ['}'] ++ rest =
                     '\\' :: 'u' :: '{' :: (hexDigitsOf c.val.toNat ++ '}' :: rest) := by simp
                 rw [e]
                 have := parse_hexDigitsOf c rest
                 simp only [unquoteStep]
-                simp only [show ¬ ('\\' : Char).val = 0xFFFD by decide, if_false, ne_eq, not_true_eq_false,
-                  show ¬ ('u' : Char).val = 0xFFFD by decide, show ¬ ('u' : Char) = 'n' by decide, show ¬ ('u' : Char) = 'r' by decide,
+                simp only [if_false, ne_eq, not_true_eq_false,
+                  show ¬ ('u' : Char) = 'n' by decide, show ¬ ('u' : Char) = 'r' by decide,
                   show ¬ ('u' : Char) = 't' by decide, show ¬ ('u' : Char) = '\\' by decide, show ¬ ('u' : Char) = '0' by decide,
                   show ¬ ('u' : Char) = '\'' by decide, show ¬ ('u' : Char) = '"' by decide, show ¬ ('u' : Char) = 'x' by decide, if_true]
                 exact this
